@@ -1589,6 +1589,14 @@ class SymEval:
             return v
         if q == 'numpy.square':
             return self.emap(lambda x: A.mul(x, x), args[0])
+        if q == 'numpy.resize' and len(args) == 2 and not kwargs and \
+                isinstance(args[0], (Rat, int, float)) and not isinstance(args[0], bool):
+            shp = args[1] if isinstance(args[1], (tuple, list)) else (args[1],)
+            if all(isinstance(d, int) and not isinstance(d, bool) for d in shp):
+                out = SArray(tuple(shp), {})
+                for i_ in out.indices():
+                    out.entries[i_] = self.rat(args[0])     # a scalar repeated to fill the shape
+                return out
         if q in ('numpy.zeros', 'numpy.empty', 'numpy.ones'):
             return self.alloc(args[0], A.const(0) if q.endswith('zeros') else
                               (A.const(1) if q.endswith('ones') else None))
